@@ -604,6 +604,23 @@ Plan plan_C10(Rng& r, const std::string&) {
 					default: g.out.push_back(gen::mk(c, "fa_witness", {a})); ++g.n; break;
 				}
 			}
+			if (r.chance(1, 4)) {
+				// "siblings": two copies of one automaton that still share its transition storage and got different final / start states
+				int x = g.n; g.out.push_back(gen::mk(c, "fa_copy", {a})); ++g.n; int y = g.n; g.out.push_back(gen::mk(c, "fa_copy", {a})); ++g.n;
+				std::set<long> st = A.states(); std::vector<long> sv(st.begin(), st.end()); if (sv.empty()) sv.push_back(0);
+				g.out.push_back(gen::mk(c, r.chance(3, 4) ? "fa_final" : "fa_start", {x, r.pick(sv), 0}));
+				g.out.push_back(gen::mk(c, r.chance(3, 4) ? "fa_final" : "fa_start", {y, r.pick(sv), 0}));
+				int kk = r.range(1, 3);
+				for (int i = 0; i < kk; ++i) {
+					bool sw = r.chance(1, 2);
+					switch (r.below(4)) {
+						case 0: g.out.push_back(gen::mk(c, "fa_union", {sw ? y : x, sw ? x : y, long(r.below(2))})); break;
+						case 1: g.out.push_back(gen::mk(c, "fa_isect", {sw ? y : x, sw ? x : y, 1})); break;
+						default: g.out.push_back(gen::mk(c, "fa_isect", {sw ? y : x, sw ? x : y, 0})); break;
+					}
+					++g.n;
+				}
+			}
 			if (r.chance(1, 3)) {
 				// chains: the result of one operation is an operand of the next (mirror images first: Reverse leaves the start bookkeeping in an unusual state)
 				int x = g.n; g.out.push_back(gen::mk(c, r.chance(2, 3) ? "fa_reverse" : (r.chance(1, 2) ? "fa_unreach" : "fa_useless"), {r.chance(1, 2) ? a : b})); ++g.n;
